@@ -154,7 +154,7 @@ def run(ctx):
             p2 = rng.choice([8, 8, 40, -560])
             jobs[-1]["pow2"] = p2
             jobs[-1]["dtype"] = rng.choice({8: [None, "int", "int32", "int16"], 40: [None, "int"], -560: [None]}[p2])
-    recs = pool.run_jobs(__name__, jobs, limit=15.0)
+    recs = pool.run_jobs(__name__, jobs, limit=15.0, reuse=True, abort=True)
     v1 = ctx.validate("Trace_Rewire.tla", "Trace_Rewire.cfg", recs[:nr], chunk=1500)
     v2 = ctx.validate("Trace_NullSign.tla", "Trace_NullSign.cfg", recs[nr:])
     ctx.judge(jobs, recs, v1 + v2)
